@@ -27,6 +27,7 @@ type FactUnit struct {
 	Funcs   []string
 	Tracked []string // assignment targets worth recording (prefix match on the printed LHS)
 	Loops   bool     // also record loop headers (init/post/range) and break/continue
+	Lits    bool     // descend into function literals (goroutine bodies, deferred closures)
 }
 
 var factUnits = []FactUnit{
@@ -83,6 +84,14 @@ var factUnits = []FactUnit{
 		Funcs:   []string{"main"},
 		Tracked: []string{"errors", "warnings", "allFunctions", "allFiles", "allClasses", "allFragments", "filesProcessed", "filesAnalyzed", "functions, fileWarnings, fileErrors", "fileResult, fileWarnings, fileErrors", "classes, fileWarnings, fileErrors"},
 		Loops:   true,
+	},
+	{
+		Name:    "TaskFacts",
+		File:    "app/analyze_usecase.go",
+		Funcs:   []string{"Execute"},
+		Tracked: []string{"tasks", "t.Result", "t.Error", "result, err", "response", "errors", "files, err", "useCaseCfg.ConfigFile"},
+		Loops:   true,
+		Lits:    true,
 	},
 	{
 		Name:    "CxSummaryFacts",
@@ -191,7 +200,9 @@ func genFacts(l *Loader, u FactUnit, outdir string) error {
 		ast.Inspect(fd.Body, func(n ast.Node) bool {
 			switch x := n.(type) {
 			case *ast.FuncLit:
-				return false
+				if !u.Lits {
+					return false
+				}
 			case *ast.IfStmt:
 				add("if", x.Cond)
 			case *ast.ForStmt:
@@ -219,9 +230,19 @@ func genFacts(l *Loader, u FactUnit, outdir string) error {
 				if u.Loops {
 					facts = append(facts, x.Tok.String())
 				}
+			case *ast.GoStmt:
+				if u.Loops {
+					facts = append(facts, "go: "+nodeText(fset, x.Call.Fun)[:4]+"…("+func() string {
+						parts := []string{}
+						for _, a := range x.Call.Args {
+							parts = append(parts, nodeText(fset, a))
+						}
+						return strings.Join(parts, ", ")
+					}()+")")
+				}
 			case *ast.ExprStmt:
 				if u.Loops {
-					if t := nodeText(fset, x.X); strings.HasPrefix(t, "os.Exit(") || strings.HasPrefix(t, "panic(") {
+					if t := nodeText(fset, x.X); strings.HasPrefix(t, "os.Exit(") || strings.HasPrefix(t, "panic(") || strings.HasPrefix(t, "wg.") {
 						facts = append(facts, "call: "+t)
 					}
 				}
